@@ -13,7 +13,7 @@ for i in range(1, 21):
     src = os.environ.get("MUT5", "/var/tmp/mut5_backup") + "/out_%s" % cid
     notes = open(src + "/notes.md").read() if os.path.exists(src + "/notes.md") else ""
     ROUND = int(os.environ.get("ROUND", "5"))
-    for v, w in ((("A", "G"), ("B", "H")) if ROUND == 5 else (("A", "I"), ("B", "J"))):
+    for v, w in {5: (("A", "G"), ("B", "H")), 6: (("A", "I"), ("B", "J")), 7: (("A", "K"), ("B", "L"))}[ROUND]:
         name = "%s-%s" % (cid, w)
         runs = []
         for d in (first_d, final_d):
